@@ -182,3 +182,260 @@ Proof.
   destruct (candidates_in s2 table name data); try reflexivity.
   now apply first_success_ext.
 Qed.
+
+(* ================================================================================================
+   The inventory discipline is sound: a program built only from constructs the inventory lists, at
+   sites the inventory classifies as benign, computes the same result in every environment and at
+   every repetition.
+   ================================================================================================ *)
+From Coq Require Import String.
+
+Lemma env_class_wf_now : env_class_wf env_class = true.
+Proof. vm_compute. reflexivity. Qed.
+
+(* ---- the runtime's choice of an order: always a permutation, and every permutation ---- *)
+Lemma insert_at_perm : forall X n (x : X) l, Permutation (insert_at n x l) (x :: l).
+Proof.
+  intros X n x l. revert n. induction l as [|y l IH]; intros [|n]; cbn [insert_at]; try apply Permutation_refl.
+  eapply Permutation_trans; [apply perm_skip, IH|apply perm_swap].
+Qed.
+
+Lemma shuffle_perm : forall X code (l : list X), Permutation (shuffle code l) l.
+Proof.
+  intros X code l. revert code. induction l as [|x l IH]; intros code; cbn [shuffle]; [constructor|].
+  eapply Permutation_trans; [apply insert_at_perm|]. constructor. apply IH.
+Qed.
+
+Lemma insert_at_app : forall X (x : X) a b, insert_at (List.length a) x (a ++ b) = a ++ x :: b.
+Proof.
+  intros X x a b. induction a as [|y a IH]; cbn [List.length app insert_at].
+  - destruct b; reflexivity.
+  - rewrite IH. reflexivity.
+Qed.
+
+Lemma shuffle_complete : forall X (l l' : list X), Permutation l l' -> exists code, shuffle code l = l'.
+Proof.
+  intros X l. induction l as [|x l IH]; intros l' P.
+  - apply Permutation_nil in P. subst. exists []. reflexivity.
+  - assert (Hin : In x l') by (eapply Permutation_in; [exact P|now left]).
+    apply in_split in Hin. destruct Hin as [a [b ->]].
+    apply Permutation_cons_app_inv in P.
+    destruct (IH _ P) as [code Hc].
+    exists (List.length a :: code). cbn [shuffle hd tl]. rewrite Hc. apply insert_at_app.
+Qed.
+
+(* ---- strings ---- *)
+Lemma has_prefix_head : forall a p k, has_prefix (String a p) k = true -> exists k', k = String a k'.
+Proof.
+  intros a p [|b k] H; cbn [has_prefix] in H; [discriminate|].
+  apply andb_prop in H. destruct H as [H _]. apply Ascii.eqb_eq in H. subst. now exists k.
+Qed.
+
+Lemma find_of_existsb : forall X (f : X -> bool) l, existsb f l = true -> exists x, find f l = Some x /\ In x l /\ f x = true.
+Proof.
+  intros X f l. induction l as [|y l IH]; cbn [existsb find]; [discriminate|].
+  destruct (f y) eqn:E; intros H.
+  - exists y. repeat split; [now left|exact E].
+  - cbn [orb] in H. destruct (IH H) as [x [H1 [H2 H3]]]. exists x. repeat split; [exact H1|now right|exact H3].
+Qed.
+
+(* a site of a benign inventory whose kind is not "format-utc" has a status that fits its kind *)
+Lemma benign_site_status : forall einv s, env_benign einv = true -> In s einv ->
+  String.eqb (site_kind s) "format-utc" = false ->
+  exists st, env_status_of s = Some st /\ status_fits (site_kind s) st = true.
+Proof.
+  intros einv s Hb Hin Hk. unfold env_benign in Hb. rewrite forallb_forall in Hb. specialize (Hb s Hin).
+  destruct s as [[f k] o]. unfold site_kind in *. cbn [fst snd] in *. cbn [env_site_ok] in Hb. rewrite Hk in Hb. cbn [orb] in Hb.
+  assert (Hx : existsb (site_matches (f, k, o)) env_class = true).
+  { rewrite <- Hb. apply f_equal2; [|reflexivity]. reflexivity. }
+  clear Hb. apply find_of_existsb in Hx. destruct Hx as [[[[f' k'] o'] st] [Hf [Hi Hm]]].
+  exists st. split.
+  - unfold env_status_of. rewrite Hf. reflexivity.
+  - pose proof env_class_wf_now as W. unfold env_class_wf in W. rewrite forallb_forall in W.
+    specialize (W _ Hi). cbn in W. cbn [site_matches] in Hm.
+    apply andb_prop in Hm. destruct Hm as [Hm _]. apply andb_prop in Hm. destruct Hm as [_ Hm].
+    apply String.eqb_eq in Hm. subst k'. exact W.
+Qed.
+
+Lemma env_kind_not_fmt : forall k, has_prefix "env:" k = true -> String.eqb k "format-utc" = false.
+Proof.
+  intros k H. apply has_prefix_head in H. destruct H as [k' ->]. reflexivity.
+Qed.
+
+(* an "env:" site of a benign inventory can only be the program name *)
+Lemma benign_env_site : forall einv s, env_benign einv = true -> In s einv ->
+  has_prefix "env:" (site_kind s) = true -> env_status_of s = Some EProgramName.
+Proof.
+  intros einv s Hb Hin Hp.
+  destruct (benign_site_status einv s Hb Hin (env_kind_not_fmt _ Hp)) as [st [Hs Hf]].
+  rewrite Hs. f_equal.
+  pose proof (has_prefix_head _ _ _ Hp) as [k' Hk]. rewrite Hk in Hf.
+  destruct st; try reflexivity; exfalso; cbn in Hf; discriminate.
+Qed.
+
+(* a formatting site of a benign inventory formats in UTC or at an offset carried by the value *)
+Lemma benign_fmt_site : forall einv s l, env_benign einv = true -> In s einv ->
+  fmt_kind_ok (site_kind s) l = true ->
+  (env_status_of s = Some EUtcByLibrary -> l = LUTC) ->
+  (env_status_of s = Some EEncodedClock -> exists off, l = LFixed off) ->
+  l <> LLocal.
+Proof.
+  intros einv s l Hb Hin Hk Hu He.
+  destruct (String.eqb (site_kind s) "format-utc") eqn:E.
+  - unfold fmt_kind_ok in Hk. rewrite E in Hk. apply String.eqb_eq in E. rewrite E in Hk.
+    cbn in Hk. destruct l; cbn in Hk; discriminate.
+  - destruct (benign_site_status einv s Hb Hin E) as [st [Hs Hf]].
+    destruct st.
+    + rewrite (Hu Hs). discriminate.
+    + destruct (He Hs) as [off ->]. discriminate.
+    + cbn [status_fits] in Hf. apply String.eqb_eq in Hf. unfold fmt_kind_ok in Hk. rewrite Hf in Hk. cbn in Hk. discriminate.
+    + cbn [status_fits] in Hf. unfold fmt_kind_ok in Hk. rewrite E in Hk. cbn [andb orb] in Hk.
+      exfalso. apply Bool.orb_prop in Hk. destruct Hk as [Hk|Hk].
+      * apply String.eqb_eq in Hk. rewrite Hk in Hf. cbn in Hf. discriminate.
+      * apply has_prefix_head in Hk. destruct Hk as [k' Hk]. rewrite Hk in Hf. cbn in Hf. discriminate.
+Qed.
+
+Lemma offset_in_not_local : forall e1 e2 l sec, l <> LLocal -> offset_in e1 l sec = offset_in e2 l sec.
+Proof. intros e1 e2 [| |o] sec H; cbn [offset_in]; try reflexivity. now elim H. Qed.
+
+Lemma benign_range : forall rinv reach f o t, ranges_benign rinv reach = true -> In (f, o, t) rinv ->
+  mem_string f reach = true ->
+  lookup_range f o range_class = Some RSortedAfter \/ lookup_range f o range_class = Some RLookupOnly.
+Proof.
+  intros rinv reach f o t Hb Hin Hr. unfold ranges_benign in Hb. rewrite forallb_forall in Hb.
+  specialize (Hb _ Hin). cbv beta iota in Hb.
+  destruct (lookup_range f o range_class) as [[| |]|]; try discriminate.
+  - rewrite Hr in Hb. discriminate.
+  - now left.
+  - now right.
+Qed.
+
+Theorem run_env_independent : forall einv rinv reach ngo,
+  env_benign einv = true -> ranges_benign rinv reach = true -> ngo = 0 ->
+  forall A (p : prog A), obeys einv rinv reach ngo p ->
+  forall e1 e2 n1 n2, fst (run e1 n1 p) = fst (run e2 n2 p).
+Proof.
+  intros einv rinv reach ngo He Hr Hg A p H.
+  induction H as [a | s q k Hin Hp Hdis Hk IH | s l f sec k Hin Hkind Hu Hc Hk IH | s m k Hin Hp Hk IH
+                 | f o keys k Hin Hreach Hs Hl Hk IH | s rs k Hgo Hk IH]; intros e1 e2 n1 n2.
+  - reflexivity.
+  - cbn [run].
+    pose proof (benign_env_site einv s He Hin Hp) as Hst.
+    rewrite (Hdis Hst (e_read e1 q) (e_read e2 q) e1 n1). apply IH.
+  - cbn [run].
+    rewrite (offset_in_not_local e1 e2 l sec (benign_fmt_site einv s l He Hin Hkind Hu Hc)). apply IH.
+  - cbn [run]. apply IH.
+  - cbn [run]. destruct Hin as [t Hin].
+    destruct (benign_range rinv reach f o t Hr Hin Hreach) as [Hc|Hc].
+    + destruct (Hs Hc) as [k' Hk'].
+      assert (E : k (shuffle (e_choice e1 n1) keys) = k (shuffle (e_choice e2 n2) keys)).
+      { rewrite !Hk'. f_equal. apply sort_perm_invariant.
+        eapply Permutation_trans; [apply shuffle_perm|apply Permutation_sym, shuffle_perm]. }
+      rewrite E. apply IH.
+    + rewrite (Hl Hc (shuffle (e_choice e1 n1) keys) (shuffle (e_choice e2 n2) keys) e1 (S n1)).
+      * apply IH.
+      * eapply Permutation_trans; [apply shuffle_perm|apply Permutation_sym, shuffle_perm].
+  - subst ngo. exfalso. revert Hgo. apply N.lt_irrefl.
+Qed.
+
+(* the whole modelled pipeline: dispatcher (Model/Dispatch.v) over sniffer and parser programs, then the printer *)
+Theorem describe_env_independent : forall einv rinv reach ngo pl,
+  env_benign einv = true -> ranges_benign rinv reach = true -> ngo = 0 ->
+  pipeline_obeys einv rinv reach ngo pl ->
+  forall e1 e2 n1 n2 name content, describe pl e1 n1 name content = describe pl e2 n2 name content.
+Proof.
+  intros einv rinv reach ngo pl He Hr Hg [Hs [Hp Hq]] e1 e2 n1 n2 name content. unfold describe.
+  rewrite (dispatch_functional
+             (fun s d => fst (run e1 n1 (pl_sniff pl s d))) (fun s d => fst (run e2 n2 (pl_sniff pl s d)))
+             (fun p d => fst (run e1 n1 (pl_parse pl p d))) (fun p d => fst (run e2 n2 (pl_parse pl p d))) name content).
+  - destruct (Dispatch.inspect _ _ name content) as [i| |]; try reflexivity.
+    f_equal. apply (run_env_independent einv rinv reach ngo He Hr Hg). apply Hq.
+  - intros n d. apply (run_env_independent einv rinv reach ngo He Hr Hg). apply Hs.
+  - intros n d. apply (run_env_independent einv rinv reach ngo He Hr Hg). apply Hp.
+Qed.
+
+(* for the source as it is scanned now *)
+Theorem describe_function_of_name_and_content_now : forall pl,
+  pipeline_obeys gen.Scan.env_reads gen.Scan.map_ranges gen.Scan.reachable gen.Scan.go_statements pl ->
+  forall e1 e2 n1 n2 name content, describe pl e1 n1 name content = describe pl e2 n2 name content.
+Proof.
+  intros pl H. apply (describe_env_independent _ _ _ _ pl env_benign_now ranges_benign_now no_goroutines_now H).
+Qed.
+
+(* ---- the hypotheses are met by a non-trivial pipeline over the sites of the source as it is ---- *)
+Lemma In_dec_true : forall (s : site) l,
+  existsb (fun x => match x, s with (f, k, o), (f', k', o') => String.eqb f f' && String.eqb k k' && (o =? o') end) l = true -> In s l.
+Proof.
+  intros [[f' k'] o'] l H. apply existsb_exists in H. destruct H as [[[f k] o] [Hi H]].
+  apply andb_prop in H. destruct H as [H Ho]. apply andb_prop in H. destruct H as [Hf Hk].
+  apply String.eqb_eq in Hf, Hk. apply N.eqb_eq in Ho. subst. exact Hi.
+Qed.
+
+Lemma sample_pipeline_obeys :
+  pipeline_obeys gen.Scan.env_reads gen.Scan.map_ranges gen.Scan.reachable gen.Scan.go_statements sample_pipeline.
+Proof.
+  split; [|split].
+  - intros s d. constructor.
+  - intros p d. unfold sample_pipeline, pl_parse, sample_parse.
+    destruct (bytes_eqb p (bs "PGPPublicKey")); [|destruct (bytes_eqb p (bs "ASN1File"))].
+    + apply ob_range.
+      * assert (H : existsb (fun r => match r with (f, o, _) => String.eqb f "internal/file:pgpKey" && (o =? 1) end) gen.Scan.map_ranges = true)
+          by (vm_compute; reflexivity).
+        apply existsb_exists in H. destruct H as [[[f o] t] [Hi H]]. apply andb_prop in H. destruct H as [Hf Ho].
+        apply String.eqb_eq in Hf. apply N.eqb_eq in Ho. subst. now exists t.
+      * vm_compute. reflexivity.
+      * intros _. exists (pgp_after_sort (1709335800 + Z.of_nat (List.length d))%Z). intros l. reflexivity.
+      * intros H. vm_compute in H. discriminate.
+      * intros l. unfold pgp_after_sort. apply ob_fmt.
+        -- apply In_dec_true. vm_compute. reflexivity.
+        -- reflexivity.
+        -- intros H. reflexivity.
+        -- intros H. vm_compute in H. discriminate.
+        -- intros b. constructor.
+    + apply ob_fmt.
+      * apply In_dec_true. vm_compute. reflexivity.
+      * reflexivity.
+      * reflexivity.
+      * intros H. vm_compute in H. discriminate.
+      * intros b. apply ob_fmt.
+        -- apply In_dec_true. vm_compute. reflexivity.
+        -- reflexivity.
+        -- reflexivity.
+        -- intros H. vm_compute in H. discriminate.
+        -- intros b'. constructor.
+    + apply ob_log.
+      * apply In_dec_true. vm_compute. reflexivity.
+      * reflexivity.
+      * constructor.
+  - intros i. constructor.
+Qed.
+
+(* two environments: Berlin in summer, choices made in file order / Kiritimati, every order reversed *)
+Definition env_a : env := mkenv (fun q => bs "C") (fun _ => 7200%Z) (fun _ => []).
+Definition env_b : env := mkenv (fun q => bs "tr_TR.UTF-8") (fun _ => 50400%Z) (fun _ => [7; 6; 5; 4; 3; 2; 1]%nat).
+
+Lemma sample_report_is_not_trivial :
+  describe sample_pipeline env_a 0 (bs "k.asc") (bs "-----BEGIN PGP PUBLIC KEY BLOCK-----" ++ [10] ++ bs "zoe" ++ [10] ++ bs "Alice")
+  <> describe sample_pipeline env_a 0 (bs "k.asc") (bs "-----BEGIN PGP PUBLIC KEY BLOCK-----" ++ [10] ++ bs "zoe" ++ [10] ++ bs "Bob").
+Proof. vm_compute. discriminate. Qed.
+
+(* ---- each hypothesis is needed: the two seeded changes as programs ---- *)
+(* an environment read that reaches the report: not a function of (name, content) *)
+Lemma locale_read_depends_on_env : exists i e1 e2, fst (run e1 0 (locale_print i)) <> fst (run e2 0 (locale_print i)).
+Proof.
+  exists (Info (bs "SSH public key") [(bs "Comment", [90; 111; 195; 171])] []), env_a, env_b.
+  vm_compute. discriminate.
+Qed.
+
+(* results collected in completion order: not a function of (name, content), not even within one process *)
+Lemma completion_order_depends_on_schedule : exists blocks e n1 n2,
+  fst (run e n1 (parallel_blocks blocks)) <> fst (run e n2 (parallel_blocks blocks)).
+Proof.
+  exists [leaf (bs "certificate A") []; leaf (bs "private key B") []],
+         (mkenv (fun _ => []) (fun _ => 0%Z) (fun n => match n with O => [] | _ => [1%nat] end)), 0%nat, 1%nat.
+  vm_compute. discriminate.
+Qed.
+
+(* and the inventory sees both: neither site could be classified *)
+Lemma locale_site_not_benign : env_benign [("cmd/decipher:localeIsUTF8", "env:os.Getenv", 1)%string] = false.
+Proof. vm_compute. reflexivity. Qed.
